@@ -66,6 +66,26 @@ def body(ctx):
                       f"file: {os.path.join(d, 'multi.lua')}\n{runs} runs produced {len(outs)} different outputs\nfirst:\n{a[:1500]}\nsecond:\n{b[:1500]}")
     else:
         ctx.nontrivial.add("cli-restarts")
+    # … and under a configuration whose tables hold near-duplicate keys (lint names spelled with `-` and with `_`, at different
+    # levels; option tables for both spellings): whatever the tool makes of such a file, it makes the same of it every time
+    with open(os.path.join(d, "near_duplicates.toml"), "w") as fh:
+        fh.write('std = "lua51"\n[lints]\n'
+                 'unused_variable = "allow"\nunused-variable = "deny"\nshadowing = "deny"\n"shadowing " = "allow"\n'
+                 'mismatched_arg_count = "warn"\nmismatched-arg-count = "allow"\nduplicate_keys = "allow"\nduplicate-keys = "deny"\n'
+                 'undefined_variable = "warn"\nundefined-variable = "deny"\nifs_same_cond = "deny"\nifs-same-cond = "allow"\n'
+                 'Unused_Variable = "warn"\nUNDEFINED_VARIABLE = "allow"\n'
+                 '[config]\nunused_variable = { ignore_pattern = "^a" }\nunused-variable = { ignore_pattern = "^b" }\n')
+    outs = set()
+    for i in range(runs):
+        rc, out, err = cli.run_selene(["--config", "near_duplicates.toml", "--display-style", "json2", "--num-threads", "1", "multi.lua"], d)
+        outs.add((rc, out, re.sub(r"\s+", " ", err)[:400]))
+        ctx.evaluations += 1
+    if len(outs) != 1:
+        a, b = sorted(outs)[:2]
+        ctx.violation("implementation violates the specification: [C12] under a configuration with near-duplicate lint names the CLI's output for one file differs between process starts",
+                      f"file: {os.path.join(d, 'multi.lua')}\nconfig: {os.path.join(d, 'near_duplicates.toml')}\n{runs} runs produced {len(outs)} different (exit status, stdout, stderr)\nfirst: rc={a[0]}\n{a[1][:1200]}\n{a[2]}\nsecond: rc={b[0]}\n{b[1][:1200]}\n{b[2]}")
+    else:
+        ctx.nontrivial.add("cli-restarts-near-duplicate-config")
     # source audit
     findings = hash_iteration_audit(ctx)
     ctx.notes.append(f"hash-iteration audit: {len(findings)} un-audited iteration sites")
